@@ -715,6 +715,8 @@ type Line struct {
 	// handler issues for the same graph, i.e. the real status.PrepareGatewayRequests with a nil reload result, applied by the
 	// real setters (reference of the judge clause programmed:false-after-successful-reload)
 	Fresh []JGatewayStatus `json:"fresh,omitempty"`
+	// TLS fragment stream only (see fragment.go RunFragmentTLS): the cluster's Secrets (input of PipelineTlsTie.toFragmentT)
+	Secrets []JSecret `json:"secrets,omitempty"`
 	// fragment stream only (see fragment.go): the flat scenario, input of PipelineStatusTie.toFragmentV
 	Flat *c02.Flat `json:"flat,omitempty"`
 	Tags      map[string]int `json:"tags,omitempty"`
